@@ -1040,6 +1040,16 @@ def add_obligations(rep, tier):
         return z3.Implies(k2 != K, z3.Select(mm.arr, k2) == z3.Select(old_arr, k2))
     obs.append(compare.ensures(eng, f"{PID}.A.add.stored_values_are_the_old_ones_followed_by_the_new_ones_in_order", fn, lines, paths, clause_view, T, extra_hyps=hyps))
     obs.append(compare.ensures(eng, f"{PID}.A.add.no_other_property_changes", fn, lines, paths, clause_frame, T, extra_hyps=hyps))
+    old_rank = m.rank
+
+    def clause_rank(pa):
+        # insertion order: a name that is already present keeps its place, and so does every other name (C10: with sorting off the
+        # properties are written in first-insertion order)
+        mm = pa.state.heap[addr]
+        k2 = E.fresh("any_key", E.S)
+        present_before = z3.Select(old_arr, k2) != E.OptRef.none
+        return z3.Implies(present_before, z3.Select(mm.rank, k2) == z3.Select(old_rank, k2))
+    obs.append(compare.ensures(eng, f"{PID}.A.add.names_keep_their_first_insertion_position", fn, lines, paths, clause_rank, T, extra_hyps=hyps))
     obs.append(compare.raises_only(eng, f"{PID}.A.add.raises_only_what_the_value_class_raises", fn, lines, paths, ["Exception"], T, extra_hyps=hyps))
     ok = Obligation(f"{PID}.A.add.reachable", fn, "z3", PROVED, lines=lines)
     rets = [p for p in paths if p.kind == "ret"]
